@@ -61,6 +61,34 @@ def cases(ctx):
             for c in m["commands"]:
                 if c["cmd"] == "EEMSRead":
                     c["args"]["InFileName"] = newname
+        reads = [c for c in m["commands"] if c["cmd"] == "EEMSRead"]
+        if i % 6 == 1 and reads:
+            # the same column of the same file read a second time under another name, as another kind of number / with another
+            # missing marker: a second read in the translation, too
+            dup = copy.deepcopy(reads[0])
+            dup["result"] = "In_again"
+            dup["args"].pop("Metadata", None)
+            how = rng.choice(["type", "missing", "same"])
+            if how == "type":
+                dup["args"]["DataType"] = "Float" if dup["args"].get("DataType") == "Integer" else "Integer" if m["table"]["cols"][dup["args"]["InFieldName"]]["integer"] else "Float"
+            elif how == "missing":
+                dup["args"]["MissingVal"] = rng.choice([v for v in m["table"]["cols"][dup["args"]["InFieldName"]]["data"]][:3])
+            m["commands"].insert(m["commands"].index(reads[0]) + 1 + rng.randrange(len(m["commands"]) - m["commands"].index(reads[0])), dup)
+            m["commands"].append({"result": "AgainCopy", "cmd": "Copy", "args": {"InFieldName": "In_again"}})
+        if i % 9 == 4:
+            # a model that is not well-typed (a plain field given to a fuzzy operator, or a fuzzy result converted again): the
+            # 2.0 file and its translation stop alike
+            fz = [c for c in m["commands"] if c["cmd"] in arr.FUZZY_INPUT and c["cmd"] != "CvtFromFuzzy"]
+            if fz and reads:
+                c = rng.choice(fz)
+                if "InFieldName" in c["args"]:
+                    c["args"]["InFieldName"] = reads[0]["result"]
+                elif "InFieldNames" in c["args"]:
+                    c["args"]["InFieldNames"] = list(c["args"]["InFieldNames"][:-1]) + [reads[0]["result"]]
+                m["ill_typed"] = True
+            else:
+                m["commands"].append({"result": "OrPlain", "cmd": "FuzzyOr", "args": {"InFieldNames": [reads[0]["result"]]}})
+                m["ill_typed"] = True
         yield {"kind": "model", "model": m, "mixed": rng.random() < 0.4, "style": rng.choice(["canon", "wild", "wild"]), "rseed": rng.randrange(10 ** 9)}
 
 
